@@ -6,6 +6,9 @@ import TongoProofs.Lemmas.JsonValid
 import TongoProofs.Lemmas.JsonMisc
 import TongoProofs.Lemmas.JsonFift
 import TongoProofs.Lemmas.JsonAddr
+import TongoProofs.Lemmas.JsonEnvelope
+import TongoProofs.C01
+import TongoProofs.C07
 /-! Property C20 — JSON forms of chain values parse back to the same value.
 Property theorems only. The printers/parsers are the functions of `TongoModel/Json.lean` (tied to the Go methods by
 the correspondence check and, for the ~170 generated types, by the regenerated table `TongoGen.IntJson`). -/
@@ -206,7 +209,8 @@ theorem json_roundtrip_int256 (bs : List UInt8) (h : bs.length = 32) :
 theorem json_roundtrip_grams (v : Nat) (hv : v < 2 ^ 64) : parseGrams (printGrams v) = .ok v := by
   unfold parseGrams printGrams trimCoins
   rw [trimSet_quote _ (by decide) _ (coinChars_printNat v), decimal_roundtrip_unsigned 64 (by omega) (by omega) v]
-  simp [hv, NumRes.toOutcome]
+  rw [if_pos hv]
+  rfl
 
 /-- SignedCoins after the repair (`strconv.ParseInt`): every int64 amount, negative ones included, parses back -/
 theorem json_roundtrip_signedcoins (v : Int) (hlo : -(2 ^ 63 : Int) ≤ v) (hhi : v < (2 ^ 63 : Int)) :
@@ -248,6 +252,18 @@ example : parseMaybe parseGrams (printMaybe printGrams (some 1000000000)) = .ok 
   simp only [hq, if_false, Bool.not_true, Bool.false_eq_true]
   rw [show quote (printNat 1000000000) = printGrams 1000000000 from rfl, json_roundtrip_grams _ (by omega)]
   simp [valid_printGrams]
+
+/-- Maybe of a COMPOSITE record (tlb.Maybe[tlb.Anycast]: no JSON methods of its own, encoding/json's struct codec
+`{"Depth":d,"RewritePfx":p}`): absent and present values round-trip — an instance of `json_roundtrip_maybe` whose
+four hypotheses are theorems here -/
+theorem json_roundtrip_maybe_anycast (m : Option Anycast) (h : ∀ a, m = some a → a.depth < 2 ^ 32 ∧ a.pfx < 2 ^ 32) :
+    parseMaybe parseAnycastJson (printMaybe printAnycastJson m) = .ok m := by
+  cases m with
+  | none => simp [printMaybe, parseMaybe]
+  | some a =>
+    obtain ⟨hd, hp⟩ := h a rfl
+    simp [printMaybe, parseMaybe, printAnycastJson_ne_null a, valid_printAnycastJson a, trimWs_printAnycastJson a,
+      parseAnycastJson_print a hd hp]
 
 /-! ## bit strings and message addresses -/
 
@@ -296,13 +312,101 @@ theorem json_roundtrip_wrapped {α} (toText : α → Str) (ofText : Str → Outc
   rw [trimQuote_quote _ hq, hrt]
 
 /-- ton.AccountID (json.Marshal of the raw form, json.Unmarshal into a string, then the address parser): round-trips
-whenever the raw-form parser does (C17, hypothesis `hrt`) and the raw form needs no JSON escapes -/
+whenever the raw-form parser does (C17, hypothesis `hrt`) and the raw form is ASCII text that needs no JSON escapes -/
 theorem json_roundtrip_via_string {α} (toText : α → Str) (ofText : Str → Outcome α) (v : α)
-    (hrt : ofText (toText v) = .ok v) (hs : ∀ c ∈ toText v, isSafe c = true) :
+    (hrt : ofText (toText v) = .ok v) (hs : ∀ c ∈ toText v, isSafe c = true) (ha : ∀ c ∈ toText v, isAscii c = true) :
     parseViaString ofText (printWrapped toText v) = .ok v := by
   unfold parseViaString printWrapped
-  rw [unmarshalString_quote _ hs]
+  rw [unmarshalString_quote _ hs ha]
   exact hrt
+
+/-! ## cells and message-body envelopes -/
+
+/-- boc.Cell / tlb.Any, through the BOC model of C01: the JSON text of a cell — `"` + hex of what serializeBoc writes
+for the writer's order `(t, [root])` of the cell — parses back (Trim, hex.DecodeString, DeserializeBoc, one root) to
+exactly that table and root. The premise that remains is C01's `order_valid` (the order computed by the Go writer
+is a valid layout, `hv`); `hn`/`hlen` are the size limits of the format. -/
+theorem json_roundtrip_cell (t : Table) (root : Nat) (hv : Boc.ValidLayout t [root]) (hn : t.size < 16777216)
+    (hlen : (Boc.Writer.serializeOrdered t [root] false false false []).length < Boc.two63) :
+    parseCellJson (printCellJsonOrdered t root) = .ok (t, root) := by
+  have hroot : root < t.size := hv.1.2.1 root (by simp)
+  unfold parseCellJson printCellJsonOrdered
+  rw [trimQuote_quote _ (fun c hc => lowerHex_ne c '"' (hexLower_chars _ c hc) (by decide)), decodeChars_hexLower]
+  simp only []
+  rw [C01.roundtrip t [root] false false false [] hv hn (by simp) (by simp; omega) hlen]
+
+/-- abi.InMsgBody / abi.ExtOutMsgBody: the empty body -/
+theorem json_roundtrip_envelope_empty {C V} (pc : C → Str) (pk : V → Str) (parseCell : Str → Outcome C)
+    (parseKnown : Str → Option (Str → Outcome V)) :
+    parseEnvelope parseCell parseKnown (printEnvelope pc pk (.empty none)) = .ok (.empty none) :=
+  parseEnvelope_empty parseCell parseKnown
+
+/-- …the "Unknown" body (a cell) with or without op code: round-trips whenever the cell's own JSON form does
+(`hcell`, e.g. `json_roundtrip_cell`) and is a value text (a quoted string is: `valueText_quote`) -/
+theorem json_roundtrip_envelope_unknown {C V} (pc : C → Str) (pk : V → Str) (parseCell : Str → Outcome C)
+    (parseKnown : Str → Option (Str → Outcome V)) (op : Option Nat) (c : C)
+    (hop : ∀ n, op = some n → n < 2 ^ 32) (hvt : ValueText (pc c)) (hcell : parseCell (pc c) = .ok c) :
+    parseEnvelope parseCell parseKnown (printEnvelope pc pk (.unknown op c)) = .ok (.unknown op c) := by
+  unfold parseEnvelope printEnvelope
+  rw [unmarshalEnvelope_envText unknownName (by decide) (by decide) op hop (pc c) hvt]
+  simp [Outcome.bind, unknownName, hcell]
+
+/-- …a registered body type `name` (not empty, not "Unknown", plain ASCII): round-trips whenever the type's own
+JSON does (`hk`) and is a value text (`hvt`: true of every valid JSON value, assumed here for the composite records,
+whose struct-level JSON is not modelled) -/
+theorem json_roundtrip_envelope_known {C V} (pc : C → Str) (pk : V → Str) (parseCell : Str → Outcome C)
+    (parseKnown : Str → Option (Str → Outcome V)) (name : Str) (op : Option Nat) (v : V) (dec : Str → Outcome V)
+    (hs : ∀ c ∈ name, isSafe c = true) (ha : ∀ c ∈ name, isAscii c = true) (hne : name ≠ []) (hnu : name ≠ unknownName)
+    (hop : ∀ n, op = some n → n < 2 ^ 32) (hvt : ValueText (pk v)) (hreg : parseKnown name = some dec)
+    (hk : dec (pk v) = .ok v) :
+    parseEnvelope parseCell parseKnown (printEnvelope pc pk (.known name op v)) = .ok (.known name op v) := by
+  unfold parseEnvelope printEnvelope
+  rw [unmarshalEnvelope_envText name hs ha op hop (pk v) hvt]
+  simp [Outcome.bind, hne, hnu, hreg, hk]
+
+/-- the "Unknown" body with the cell codec of the BOC model, end to end -/
+theorem json_roundtrip_unknown_body_cell {V} (pk : V → Str) (parseKnown : Str → Option (Str → Outcome V))
+    (op : Option Nat) (hop : ∀ n, op = some n → n < 2 ^ 32)
+    (t : Table) (root : Nat) (hv : Boc.ValidLayout t [root]) (hn : t.size < 16777216)
+    (hlen : (Boc.Writer.serializeOrdered t [root] false false false []).length < Boc.two63) :
+    parseEnvelope parseCellJson parseKnown
+      (printEnvelope (fun (x : Table × Nat) => printCellJsonOrdered x.1 x.2) pk (.unknown op (t, root))) =
+      .ok (.unknown op (t, root)) :=
+  json_roundtrip_envelope_unknown _ pk parseCellJson parseKnown op (t, root) hop
+    (valueText_quote _ (hexLower_safe _)) (json_roundtrip_cell t root hv hn hlen)
+
+/-- the envelope printer emits valid JSON (given that the embedded value text is one) -/
+theorem json_valid_envelope {C V} (pc : C → Str) (pk : V → Str) (b : Body C V)
+    (hname : ∀ n op v, b = .known n op v → ∀ c ∈ n, isSafe c = true)
+    (hc : ∀ op c, b = .unknown op c → ValueText (pc c)) (hk : ∀ n op v, b = .known n op v → ValueText (pk v)) :
+    valid (printEnvelope pc pk b) = true := by
+  cases b with
+  | empty op => exact valid_empty_object
+  | unknown op c => exact envText_valid unknownName (by decide) op _ (hc op c rfl)
+  | known n op v => exact envText_valid n (hname n op v rfl) op _ (hk n op v rfl)
+
+/-- Cell.UnmarshalJSON never panics on a document that is a Go slice (C07 `parse_total` for the BOC bytes) -/
+theorem json_parse_total_cell (p : Str) (hp : p.length < Boc.two63) : (parseCellJson p).isPanic = false := by
+  unfold parseCellJson
+  split
+  · rfl
+  · rename_i bytes hb
+    have h1 := decodeChars_length _ bytes hb
+    have h2 := trimSet_length_le ['"'] p
+    have hlen : bytes.length < Boc.two63 := by unfold trimQuote at h1; omega
+    have := C07.parse_total bytes hlen
+    split
+    · rfl
+    · rfl
+    · rfl
+    · rename_i e he; exact absurd he (this e)
+
+/-- the envelope parser never panics when the codecs it dispatches to do not -/
+theorem json_parse_total_envelope {C V} (parseCell : Str → Outcome C) (parseKnown : Str → Option (Str → Outcome V))
+    (p : Str) (hc : ∀ q, (parseCell q).isPanic = false)
+    (hk : ∀ n f, parseKnown n = some f → ∀ q, (f q).isPanic = false) :
+    (parseEnvelope parseCell parseKnown p).isPanic = false :=
+  parseEnvelope_total parseCell parseKnown p hc hk
 
 /-! ## validity of the emitted JSON, totality of the parsers -/
 
